@@ -53,6 +53,7 @@ var c10Defs = []string{
 	"pairs = (a) -> {\nr = []\nfor i, e <- indices(a), elems(a) {\nr = r + [[i, e]]\n}\nr\n}",
 	"grow = (a, n) -> {\ni = 0\nwhile i < n {\na = a + [i]\ni = i + 1\n}\na\n}",
 	"twice = (a) -> [a + [1], a + [2], a]",
+	"window = (a, i, n) -> a[i:#a][0:n]",
 	"fork = (a, d) -> if d <= 0 {\n[a]\n} else {\nfork(a + [0], d - 1) + fork(a + [1], d - 1)\n}",
 	"joinall = (a) -> {\nr = \"\"\nfor e <- elems(a) {\nr = r + toa(e) + \";\"\n}\nr\n}",
 }
@@ -194,7 +195,26 @@ func (C10) Run(tp *tape.Tape) core.Result {
 			a := pick('a')
 			st := pick('s')
 			v := fresh()
-			switch tp.Draw(29) {
+			switch tp.Draw(31) {
+			case 29, 30: // take a prefix of a whole-range slice (the drop-then-take idiom with nothing dropped), directly and through a function
+				l := length(a)
+				k := tp.Draw(l + 1)
+				form := fmt.Sprintf("%s = %s[0:#%s][0:%d]", v, a, a, k)
+				if tp.Bool() {
+					form = fmt.Sprintf("%s = window(%s, 0, %d)", v, a, k)
+				}
+				if submit(form, v, 'a', false) {
+					goto done
+				}
+				if st != "" {
+					w := fresh()
+					ls := length(st)
+					if submit(fmt.Sprintf("%s = %s[0:#%s][0:%d]", w, st, st, tp.Draw(ls+1)), w, 's', false) {
+						goto done
+					}
+				}
+				shared = true
+				r.Inc("prefix_of_whole_range_slice", 1)
 			case 27, 28: // an argument that is itself a concatenation, extended twice by the callee: both results and the argument keep their own elements
 				inner := strings.TrimSuffix(strings.TrimPrefix(render(a), "["), "]")
 				sep := ", "
